@@ -444,6 +444,26 @@ func init() {
 		}
 		return "ok"
 	})
+	// C04 against state that outlives one translation (package-level caches keyed by source text): the SAME text parsed twice in this process; every
+	// reference of the second module must be a definition of the second module (and the first module must still be closed afterwards)
+	reg("mod.closure2", func(a []string) string {
+		text := string(unhexArg(a[1]))
+		m1, o := parseOutcome(text)
+		if m1 == nil {
+			return "FAIL " + o
+		}
+		m2, o2 := parseOutcome(text)
+		if m2 == nil {
+			return "FAIL second parse: " + o2
+		}
+		if r := closureCheck(m2); r != "ok" {
+			return "FAIL second parse of the same text: " + strings.TrimPrefix(r, "FAIL ")
+		}
+		if r := closureCheck(m1); r != "ok" {
+			return "FAIL first module after the second parse: " + strings.TrimPrefix(r, "FAIL ")
+		}
+		return "ok"
+	})
 	// C05: the documented exception must be accepted
 	reg("mod.accept", func(a []string) string {
 		_, o := parseOutcome(string(unhexArg(a[1])))
